@@ -47,13 +47,13 @@ def check_dispatch(res, repo):
     fl = repo.method("hexital.core.candle", "Candle", "from_list")
     fl_types = set()
     for c in calls_in(fl.node):
-        if call_name(c) == "isinstance" and len(c.args) == 2 and ast.unparse(c.args[0]) in ("candle[0]",):
+        if call_name(c) == "isinstance" and len(c.args) == 2 and _is_first_elem(c.args[0]):
             fl_types |= _type_names(c.args[1])
     arm_types = set()
     for n in ast.walk(ap.node):
         if isinstance(n, ast.If):
             t = n.test
-            if isinstance(t, ast.Call) and call_name(t) == "isinstance" and ast.unparse(t.args[0]) == "candles[0]" and any(call_target(c) == "Candle.from_list" for st in n.body for c in calls_in(st)):
+            if isinstance(t, ast.Call) and call_name(t) == "isinstance" and _is_first_elem(t.args[0]) and any(call_target(c) == "Candle.from_list" for st in n.body for c in calls_in(st)):
                 arm_types |= _type_names(t.args[1])
     if fl_types and fl_types <= arm_types | {"float", "int"} and {"float", "int"} <= arm_types:
         res.ok(rule, {"site": ap.where, "from_list first-element types": sorted(fl_types | {"float", "int"}), "dispatch arm accepts": sorted(arm_types)}, nontrivial="dispatch:row-types")
@@ -65,7 +65,7 @@ def check_dispatch(res, repo):
         ctor = [c for c in calls_in(m.node) if call_target(c) in ("cls", "Candle")]
         if len(ctor) == 1 and len(ctor[0].args) + len(ctor[0].keywords) == 6:
             slots = [ast.unparse(a) for a in ctor[0].args] + [f"{k.arg}={ast.unparse(k.value)}" for k in ctor[0].keywords]
-            order_ok = _slots_ok(name, ctor[0])
+            order_ok = _slots_ok(name, ctor[0], m.node)
             if order_ok:
                 res.ok(rule, {"site": m.where, "constructor": slots}, nontrivial=f"{name}:slots")
             else:
@@ -83,13 +83,17 @@ def check_dispatch(res, repo):
     check_raw_copies("C19", res, repo, want=("method", "append"))
 
 
+def _is_first_elem(node) -> bool:
+    return isinstance(node, ast.Subscript) and isinstance(node.value, ast.Name) and isinstance(node.slice, ast.Constant) and node.slice.value == 0
+
+
 def _type_names(node):
     if isinstance(node, ast.Tuple):
         return {ast.unparse(e) for e in node.elts}
     return {ast.unparse(node)}
 
 
-def _slots_ok(name, ctor: ast.Call) -> bool:
+def _slots_ok(name, ctor: ast.Call, fn=None) -> bool:
     want = ["open", "high", "low", "close", "volume", "timestamp"]
     if name == "from_dict":
         got = []
@@ -97,8 +101,23 @@ def _slots_ok(name, ctor: ast.Call) -> bool:
             txt = ast.unparse(a)
             got.append(next((w for w in want if f"'{w}'" in txt), None))
         return got == want
-    kws = {k.arg: ast.unparse(k.value) for k in ctor.keywords}
-    return [kws.get(w) for w in want[:5]] == [f"candle[{i}]" for i in range(5)] and kws.get("timestamp") == "timestamp"
+    kws = {k.arg: k.value for k in ctor.keywords}
+    # five positional slots of one row variable ...
+    rows = set()
+    for i, w in enumerate(want[:5]):
+        v = kws.get(w)
+        if not (isinstance(v, ast.Subscript) and isinstance(v.value, ast.Name) and isinstance(v.slice, ast.Constant) and v.slice.value == i):
+            return False
+        rows.add(v.value.id)
+    if len(rows) != 1:
+        return False
+    row = rows.pop()
+    # ... and the timestamp slot is the local that received the popped leading/trailing datetime (None otherwise)
+    ts = kws.get("timestamp")
+    if not isinstance(ts, ast.Name) or fn is None:
+        return False
+    srcs = [ast.unparse(n.value).replace(" ", "") for n in ast.walk(fn) if isinstance(n, ast.Assign) and any(isinstance(t, ast.Name) and t.id == ts.id for t in n.targets)]
+    return bool(srcs) and set(srcs) <= {"None", f"{row}.pop(0)", f"{row}.pop(-1)", f"{row}.pop()"} and any(x.startswith(row) for x in srcs)
 
 
 @register("C19")
